@@ -102,7 +102,7 @@ type verdict struct {
 func check(w *bufio.Writer, goose, mod, rel, outRoot string, v *verdict) {
 	out := filepath.Join(outRoot, strings.ReplaceAll(rel, "/", "_"))
 	os.RemoveAll(out)
-	tctx, cancel := context.WithTimeout(context.Background(), 120*time.Second)
+	tctx, cancel := context.WithTimeout(context.Background(), 60*time.Second)
 	defer cancel()
 	cmd := exec.CommandContext(tctx, goose, "-out", out, "-ignore-errors", "./"+rel)
 	cmd.Dir = mod
@@ -113,7 +113,7 @@ func check(w *bufio.Writer, goose, mod, rel, outRoot string, v *verdict) {
 	err := cmd.Run()
 	if tctx.Err() != nil {
 		v.crashes++
-		fmt.Fprintf(w, "MISMATCH kind=no-termination pkg=%s detail=%s\n", rel, hex.EncodeToString([]byte("goose did not terminate within 120 s on this package")))
+		fmt.Fprintf(w, "MISMATCH kind=no-termination pkg=%s detail=%s\n", rel, hex.EncodeToString([]byte("goose did not terminate within 60 s on this package")))
 		return
 	}
 	st := 0
@@ -392,13 +392,20 @@ func main() {
 		if !*noCat {
 			pats = append(pats, "./c/...")
 		}
-		cmd := exec.Command(*goose, append([]string{"-out", out, "-ignore-errors"}, pats...)...)
+		mctx, mcancel := context.WithTimeout(context.Background(), 120*time.Second)
+		cmd := exec.CommandContext(mctx, *goose, append([]string{"-out", out, "-ignore-errors"}, pats...)...)
 		cmd.Dir = mod
 		cmd.Env = goEnv()
 		var buf bytes.Buffer
 		cmd.Stdout = &buf
 		cmd.Stderr = &buf
 		err := cmd.Run()
+		hung := mctx.Err() != nil
+		mcancel()
+		if hung {
+			// already reported for the package concerned; one report is enough
+			break
+		}
 		st := 0
 		if ee, ok := err.(*exec.ExitError); ok {
 			st = ee.ExitCode()
